@@ -1278,12 +1278,13 @@ fn part5_flate(cx: &Ctx) {
 }
 
 // ---------------------------------------------------------------------------------------------
-// part 6: all 39 chains
+// part 6: all 40 chains
 
 fn chains() -> Vec<Vec<F>> {
     let fs = [F::Flate, F::Lzw, F::A85];
     let mut out = vec![];
-    for len in 1..=3usize {
+    // length 0 = the empty chain: /Filter [] is a legal way of saying "no filter"
+    for len in 0..=3usize {
         for mut idx in 0..3usize.pow(len as u32) {
             out.push(
                 (0..len)
@@ -1302,7 +1303,7 @@ fn chains() -> Vec<Vec<F>> {
 fn part6_chains(cx: &Ctx) {
     let run = cx.run;
     let chains = chains();
-    if chains.len() != 39 {
+    if chains.len() != 40 {
         machinery("chain enumeration");
     }
     let plains = plain_menu();
@@ -2416,7 +2417,7 @@ fn main() {
          FlateDecode+DecodeParms and through the public png::decode_row; (2) frame geometries x 5^rows filter assignments x Predictor values x \
          dictionary/array parameter form x Flate/LZW carrier; (3) ASCII85 inputs of length 0..3, full groups, z arrangements, white-space \
          positions, missing EOD; (4) LZW strings and long inputs for EarlyChange absent/1/0; (5) Flate stored blocks and flate2 levels; \
-         (6) all 39 filter chains; (7) operation sequences; (8) Flate size families: constant runs and short periods of 2^20..2^23 bytes \
+         (6) all 40 filter chains (the empty chain and every chain of 1..3 filters); (7) operation sequences; (8) Flate size families: constant runs and short periods of 2^20..2^23 bytes \
          (expansion above 1024:1), output lengths 2^k-1..2^k+1, encoded lengths just below/at/above 2^12..2^20 (plain length found by bisection), \
          every legal zlib header, predictor rows wider than 2^16 bytes; (9) compression through Stream::compress, Document::compress, \
          change_content_stream, change_page_content and xobject::form of incompressible (xorshift64, fixed seeds) content around 2^15..2^20, of \
@@ -2453,7 +2454,7 @@ fn main() {
         "part 2: every 5^n pixel assignment for Colors 1, 8 bit, Columns 1..3, rows 1..2 x every filter assignment",
         "part 3: every ASCII85 input of length 0..3 (16,843,009)",
         "part 4: every string over 3 symbols up to the stated length x EarlyChange absent/1/0",
-        "part 6: all 39 chains",
+        "part 6: all 40 chains",
     ];
     if OPEN_FRONTIERS.load(Ordering::Relaxed) == 0 {
         complete.push("part 7: the whole reachable state set (every BFS frontier was empty at the depth bound)");
